@@ -34,7 +34,8 @@ def payload_cell(P, A):
     c0, c1 = A['c0'], A['c1']
     new_ids = [A['n%d' % i] for i in range(k)]
     if level == 'story':
-        stories = [B.story(s, slug='ss', timing=B.timing_block(dur='10'), body=[T('p', 'x'), B.item('I')])
+        stories = [B.story(s, slug='ss', timing=B.timing_block(dur='10'),
+                           body=[T('p', 'x'), B.item('I', extra=B.decoys(new_ids[0], new_ids[-1]))])
                    for s in ids]
         ro = B.running_order(stories, lead=2, gap=P.get('gap'), trail=P.get('trail', 0))
         if P.get('prehist'):
@@ -221,6 +222,14 @@ def meta_cell(P, A):
             carried.append(T('roTrigger', c1))
         elif tag == 'fresh':
             carried.append(E('roEdDur', text=c1, k=c1))    # not in the running order
+        elif tag == 'metaNone':                            # a block without any mosSchema tag
+            carried.append(E('mosExternalMetadata', T('mosScope', 'PLAYLIST'), E('mosPayload', T('Owner', c1))))
+        elif tag == 'metaBlank':                           # <mosSchema/>
+            carried.append(E('mosExternalMetadata', T('mosScope', 'PLAYLIST'), T('mosSchema', None),
+                             E('mosPayload', T('Owner', c1))))
+        elif tag == 'roEdStart-text':                      # free text where a timestamp is expected
+            carried.append(T('roEdStart', c1))
+            carried.append(T('roChannel', c1))
         elif tag.startswith('meta'):
             which = tag[4:]                                # 'A' / 'B' / 'X' schema of the carried block
             schema = {'A': A.get('ma', 'sch.a'), 'B': A.get('mb', 'sch.b'), 'X': A.get('mx', 'sch.x')}[which]
@@ -229,20 +238,32 @@ def meta_cell(P, A):
     msg = M.metadata_replace(carried[1:])   # message() supplies the roID itself
     sent = [B.snap(e) for e in msg.base_tag]
     sent_tags = [e.tag for e in msg.base_tag]
-    sent_schema = [e.find('mosSchema').text if e.tag == 'mosExternalMetadata' else None for e in msg.base_tag]
+    sent_schema = [(e.find('mosSchema').text if e.find('mosSchema') is not None else None)
+                   if e.tag == 'mosExternalMetadata' else None for e in msg.base_tag]
     before = list(rc)
     snaps = [B.snap(c) for c in before]
     env = [B.snap(c) for c in ro.xml if c.tag != 'roCreate']
+    whole = B.snap(ro.xml)
     out = B.merge(ro, msg)
     B.hit()
     sig = None
     prop = P['prop']
     rc2 = B.rc_of(ro)
-    if out.raised:
+    if prop == 'atomic':
+        # whatever the message carries: if the merge raises, nothing has changed
+        if out.raised and B.snap(ro.xml) != whole:
+            sig = 'changed-before-raising-' + type(out.exc).__name__
+    elif prop == 'exc':
+        from mosromgr.exc import MosMergeError as _MME
+        if out.raised and not isinstance(out.exc, _MME):
+            sig = 'escaped-' + type(out.exc).__name__
+    elif out.raised:
         sig = 'raised-' + type(out.exc).__name__
     elif prop == 'frame':
         def same_schema(el, sch):
             t = el.find('mosSchema')
+            if sch is None:
+                return t is None or t.text is None
             return t is not None and (t.text is sch or t.text == sch)
         affected = []
         for b in before:
@@ -267,7 +288,7 @@ def meta_cell(P, A):
             if tg != 'mosExternalMetadata' and len([a for a in after if a.tag == tg]) != 1:
                 sig = 'old-value-survives'
                 break
-            if tg == 'mosExternalMetadata':
+            if tg == 'mosExternalMetadata' and sc is not None:
                 same = [a for a in after if a.tag == tg and a.find('mosSchema') is not None
                         and (a.find('mosSchema').text is sc or a.find('mosSchema').text == sc)]
                 if len(same) != 1:
